@@ -268,6 +268,7 @@ type tr struct {
 	nLoops   int
 	inRange  int
 	curRhs   string // printed right-hand side of the assignment being translated (receiver as $)
+	alias    map[string]string // Go expression text (e.g. "rs[i]") -> the local that stands for it
 	binders  string   // the binders of the function (for auxiliary definitions)
 	bnames   []string // their names
 	loop     *loopCtx
@@ -622,6 +623,13 @@ func (t *tr) findExt(callee string) *Ext {
 // operation; returns the operation and the Lean term of that identifier (argument %1)
 func (t *tr) wildExt(e ast.Expr, suffix string) (*Ext, string) {
 	txt := t.p.text(e)
+	for a, l := range t.alias { // an aliased element expression (rs[i]) in front
+		if strings.HasPrefix(txt, a+".") {
+			if ext := t.findExt("_" + txt[len(a):] + suffix); ext != nil {
+				return ext, l
+			}
+		}
+	}
 	i := strings.IndexByte(txt, '.')
 	if i <= 0 {
 		return nil, ""
@@ -694,12 +702,22 @@ func (t *tr) call(c *ast.CallExpr, stmt bool) ([]string, []T) {
 			return nil, nil
 		}
 	}
-	if ext := t.findExt(callee); ext != nil {
+	ext := t.findExt(callee)
+	wildArg := ""
+	if ext == nil {
+		if sel, ok := c.Fun.(*ast.SelectorExpr); ok {
+			ext, wildArg = t.wildExt(sel, "")
+		}
+	}
+	if ext != nil {
 		if ext.Ignore {
 			t.emit("-- (not modelled) %s", strings.ReplaceAll(t.p.text(c), "\n", " "))
 			return nil, nil
 		}
 		var args []string
+		if wildArg != "" {
+			args = append(args, wildArg)
+		}
 		for _, a := range c.Args {
 			s, _ := t.expr(a)
 			args = append(args, s)
@@ -934,8 +952,8 @@ func (t *tr) expr(e ast.Expr) (string, T) {
 		}
 		if l, ok := t.lookup(x.Name); ok {
 			ty := t.g.goT(t.typeOf(x))
-			if ty.Kind == "bad" && t.ltypes[l] != "" {
-				ty = T{"opaque", t.ltypes[l]}
+			if lt := t.ltypes[l]; lt != "" && lt != ty.Lean && (ty.Kind == "bad" || ty.Kind == "opaque") {
+				ty = T{"opaque", lt}
 			}
 			return l, ty
 		}
@@ -999,6 +1017,9 @@ func (t *tr) expr(e ast.Expr) (string, T) {
 		}
 		return vals[0], ts[0]
 	case *ast.IndexExpr:
+		if l, ok := t.alias[t.p.text(x)]; ok {
+			return l, T{"opaque", t.ltypes[l]}
+		}
 		bt := t.g.goT(t.typeOf(x.X))
 		if ext := t.findExt(calleeText(t.p, x.X, t.recvName) + "[]"); ext != nil {
 			k, _ := t.expr(x.Index)
@@ -1439,14 +1460,28 @@ func (t *tr) rangeStmt(x *ast.RangeStmt) {
 	default:
 		t.fail(x, "range over %s", ct.Lean)
 	}
-	_ = elemT
+	aliasKey := ""
 	if x.Key != nil {
-		if id, ok := x.Key.(*ast.Ident); !ok || id.Name != "_" {
-			t.fail(x, "range with an index variable")
+		id, ok := x.Key.(*ast.Ident)
+		if !ok {
+			t.fail(x, "range key")
+		}
+		if id.Name != "_" {
+			// `for i := range xs`: supported when `i` is only used as `xs[i]` (checked: every use of i is that index)
+			if x.Value != nil || !onlyIndexUses(x.Body, id.Name, t.p.text(x.X)) {
+				t.fail(x, "range with an index variable that is used other than as %s[%s]", t.p.text(x.X), id.Name)
+			}
+			aliasKey = t.p.text(x.X) + "[" + id.Name + "]"
 		}
 	}
 	t.push()
 	v := "_"
+	if aliasKey != "" {
+		v = t.declare("el")
+		t.ltypes[v] = elemT.Lean
+		t.alias[aliasKey] = v
+		defer delete(t.alias, aliasKey)
+	}
 	if x.Value != nil {
 		id, ok := x.Value.(*ast.Ident)
 		if !ok {
@@ -1454,6 +1489,7 @@ func (t *tr) rangeStmt(x *ast.RangeStmt) {
 		}
 		if id.Name != "_" {
 			v = t.declare(id.Name)
+			t.ltypes[v] = elemT.Lean
 		}
 	}
 	t.emit("for %s_it in %s do", v, coll)
@@ -1504,10 +1540,15 @@ func (t *tr) assign(x *ast.AssignStmt) {
 			}
 			k, _ := t.expr(r.Index)
 			recv, _ := t.lookup(t.recvName)
-			n := t.fresh()
-			t.emit("let %s := %s", n, subst(ext.Value, recv, []string{k}))
-			vals = []string{n, n + ".isSome"}
-			ts = []T{ext.T, tBool}
+			if len(ext.Values) == 2 {
+				vals = []string{subst(ext.Values[0], recv, []string{k}), subst(ext.Values[1], recv, []string{k})}
+				ts = ext.Ts
+			} else {
+				n := t.fresh()
+				t.emit("let %s := %s", n, subst(ext.Value, recv, []string{k}))
+				vals = []string{n, n + ".isSome"}
+				ts = []T{ext.T, tBool}
+			}
 		default:
 			t.fail(x, "multi-value assignment")
 		}
@@ -1556,6 +1597,35 @@ func (t *tr) assign(x *ast.AssignStmt) {
 		}
 		t.assignTo(l, vals[i])
 	}
+}
+
+// onlyIndexUses: every occurrence of identifier `i` in the body is the index of `coll[i]`
+func onlyIndexUses(body *ast.BlockStmt, i, coll string) bool {
+	ok := true
+	var buf bytes.Buffer
+	ast.Inspect(body, func(n ast.Node) bool {
+		if ix, isIx := n.(*ast.IndexExpr); isIx {
+			if id, isId := ix.Index.(*ast.Ident); isId && id.Name == i {
+				buf.Reset()
+				_ = printer.Fprint(&buf, token.NewFileSet(), ix.X)
+				if buf.String() == coll {
+					// do not descend into the index identifier
+					ast.Inspect(ix.X, func(m ast.Node) bool {
+						if id2, ok2 := m.(*ast.Ident); ok2 && id2.Name == i {
+							ok = false
+						}
+						return true
+					})
+					return false
+				}
+			}
+		}
+		if id, isId := n.(*ast.Ident); isId && id.Name == i {
+			ok = false
+		}
+		return true
+	})
+	return ok
 }
 
 func isEmptyPrefixSlice(p *pkgInfo, x *ast.SliceExpr) bool {
@@ -1641,7 +1711,13 @@ func mutatesBody(p *pkgInfo, g *gen, spec *FnSpec, fd *ast.FuncDecl, recvName st
 					res = true
 				}
 			}
-			if fi, recvExpr := g.lookupFn(p, x, nil); fi != nil && fi.mutates && recvExpr != nil && rooted(recvExpr) {
+			isExt := false
+			for _, e := range append(append([]Ext{}, spec.Exts...), g.globalExts...) {
+				if e.Callee == callee {
+					isExt = true
+				}
+			}
+			if fi, recvExpr := g.lookupFn(p, x, nil); !isExt && fi != nil && fi.mutates && recvExpr != nil && rooted(recvExpr) {
 				res = true
 			}
 		}
@@ -1796,7 +1872,7 @@ func (g *gen) translate(fi *fnInfo) {
 		g.report = append(g.report, map[string]any{"func": name, "problem": "not found"})
 		return
 	}
-	t := &tr{g: g, p: p, spec: spec, fd: fd, declared: map[string]int{}, ltypes: map[string]string{}}
+	t := &tr{g: g, p: p, spec: spec, fd: fd, declared: map[string]int{}, ltypes: map[string]string{}, alias: map[string]string{}}
 	ast.Inspect(fd.Body, func(n ast.Node) bool {
 		if _, ok := n.(*ast.ForStmt); ok {
 			t.hasLoop = true
